@@ -75,7 +75,9 @@ PROPS = {
         label_re=r'^C(09|05|07|06|13|10)',
         explanation='element-wise operations verified (loop invariant) against overlay(second, top, offset, op) of the README; GET/SET clamp; ONES/ZEROS/LENGTH/APPEND/EMPTY/FROMINT/EQUAL/ROTATE/CONTAINS/SET*INSERT/NOT rows; '
                     'registry binding is part of each unit',
-        not_decided=[VEC_EXTERNAL_NOTE, 'float element values are uninterpreted (which operation on which elements is proved)'],
+        not_decided=[VEC_EXTERNAL_NOTE, 'float element values are uninterpreted (which operation on which elements is proved)',
+                     'SORT*ASC/DESC and REMOVE: std sort / Vec::retain did not finish in CBMC within 400 s even for length <= 2: undecided'],
+        thorough=True,
     ),
     'C06': dict(
         level='proof',
